@@ -949,6 +949,9 @@ func init() {
 			switch s := a[0].(type) {
 			case *AStr:
 				return e.astrRunes(s)
+			case BStr:
+				e.run.noteStub("utf8.RuneCountInString on symbolic bytes: contract model of the UTF-8 decoder (unit-tested against the standard library)")
+				return bstrRuneCount(s)
 			case Stale:
 				panic(staleRead{s.Where})
 			}
